@@ -59,6 +59,13 @@ def tasks(tier, seed):
         T = (3 if (vroom or (wrapper and rng)) else (4 if (wrapper or rng) else 5)) if tier == "quick" else (4 if vroom else (6 if wrapper else 7))
         ts.append({"kind": "algo", "label": lab, "cfg": cfg, "mode": "full", "T": T, "R": list(configs.R3), "rng_k": 1 if rng else None,
                    "cost": 2 + 3 * wrapper + 2 * rng, "maps": maps, "max_exec": 6000 if tier == "quick" else 100000})
+    # VROOM descending far below float resolution of the box (depth bound 56 / 55): cells collapse to single floats at a depth
+    # that depends on the absolute coordinates; all maps, sampler answers with <= 1 departure
+    for n, hm in ((56, 100), (120, 55)):
+        for part, K, box in (("Binary", None, "u1"), ("Binary", None, "mix2"), ("RandomBinary", None, "u1"), ("Kary", 2, "nd1")):
+            cfg = configs.cfg("VROOM", part, K, configs.BOXES[box], n=n, h_max=hm, b=1, f_max=1)
+            ts.append({"kind": "algo", "label": "deep/VROOM%d/%s/%s" % (n, part, box), "cfg": cfg, "mode": "dev", "T": 12 if tier == "quick" else 25,
+                       "R": list(configs.R2), "base": "twopeak", "k": 0 if tier == "quick" else 1, "cost": 3, "maps": None, "max_exec": 4000})
     return ts
 
 
